@@ -384,9 +384,10 @@ def spec(draw, kind: str, reflex: bool = False):
         return {"kind": "line"}
     if kind == "arc":
         theta = draw(_theta(0.2, 4.5 if reflex else 2.9))
-        # ledger F10 (OpenFOAM's interior/exterior test) is C08's business: keep the point within pi of the start
+        # ledger F10 (OpenFOAM's interior/exterior test) is C08's business: keep the point within pi of both ends
+        # (an inverted face traverses the edge from the other end)
         fmax = min(0.9, (math.pi - 0.2) / theta)
-        return {"kind": "arc", "theta": theta, "phi": draw(_phi), "frac": draw(st.floats(0.1, fmax))}
+        return {"kind": "arc", "theta": theta, "phi": draw(_phi), "frac": draw(st.floats(1.0 - fmax, fmax))}
     if kind == "arc-collinear":
         return {"kind": "arc-collinear", "s": draw(st.sampled_from([0.5, 0.25, 0.1, 0.9]) | st.floats(0.05, 0.95))}
     if kind == "origin":
